@@ -56,6 +56,7 @@ def run(ctx):
     cases += [block_case(ctx.rng) for _ in range(n // 4)]
     cases += eigen_grid(ctx.tier)
     cases += classical_control_grid()
+    cases += relabel_grid()
     evaluate(ctx, cirq, mods, cases)
 
 
@@ -246,6 +247,51 @@ def eigen_grid(tier):
     return out
 
 
+def moment_step_rows(ctx, cirq, case, c, qs, Sim, split, init_arg, full, label, max_steps=7):
+    """simulate_moment_steps with the state READ AT EVERY STEP (state-vector or density matrix): after moment k it must be the model
+    state of the operations of the first k moments."""
+    rows = []
+    n = len(case.dims)
+    ident = list(range(n))
+    sim = Sim(dtype=np.complex128, split_untangled_states=split)
+    for k, step in enumerate(sim.simulate_moment_steps(c, qubit_order=qs, initial_state=init_arg)):
+        if k >= max_steps:
+            break
+        pc = case.prefix_case(c, k + 1)
+        if Sim is cirq.Simulator:
+            rows.append((f'{label}[state read after moment {k}]', ident, full, np.asarray(step.state_vector(copy=True)), 'vec', TOL128, pc))
+        else:
+            rows.append((f'{label}[state read after moment {k}]', ident, full, np.asarray(step.density_matrix(copy=True)), 'rho', 1e-6, pc))
+    return rows
+
+
+def relabel_grid():
+    """Circuits whose moments hold only SWAPs and/or identities between entangling moments (the operations the product-state simulator
+    handles by relabelling), every moment separate; read at every step (fixed for every seed)."""
+    E = lambda fam, e, s=0.0: gates.G(fam, dict(e=e, s=s), gates.EIG_SHAPE.get(fam, (2, 2)))
+    I1 = gates.G('Identity', {}, (2,))
+    I2 = gates.G('Identity', {}, (2, 2))
+    out = []
+    mids = [[(E('SwapPow', 1.0), [0, 1])], [(E('SwapPow', 3.0), [1, 2])], [(I1, [0])], [(I2, [0, 2])], [(E('SwapPow', 1.0), [0, 2]), (I1, [1])],
+            [(E('SwapPow', -1.0), [2, 1])], [(E('SwapPow', 1.0), [0, 1]), (I1, [2])], [(E('ISwapPow', 1.0), [0, 1])]]
+    for i, a in enumerate(mids):
+        for j, b in enumerate(mids):
+            if (i + j) % 2:
+                continue
+            ops_ = [circuits.Op(E('YPow', 0.3), [0]), circuits.Op(E('XPow', 0.4), [1]), circuits.Op(E('HPow', 1.0), [2])]
+            strat = ['E', 'E', 'E']
+            for k, (g, w) in enumerate(a):
+                ops_.append(circuits.Op(g, w)); strat.append('N' if k == 0 else 'E')
+            ops_.append(circuits.Op(E('CZPow', 0.5), [1, 2])); strat.append('N')
+            for k, (g, w) in enumerate(b):
+                ops_.append(circuits.Op(g, w)); strat.append('N' if k == 0 else 'E')
+            ops_.append(circuits.Op(E('XPow', 0.25), [0])); strat.append('N')
+            case = circuits.Case([2, 2, 2], ops_, strat)
+            case.all_entries = 'steps'
+            out.append(case)
+    return out
+
+
 def fixed_entry_points(ctx, cirq, mods, case):
     """A fixed list of entry points (no random choice of which): used for the grids and the block circuits."""
     rng = ctx.rng
@@ -266,6 +312,12 @@ def fixed_entry_points(ctx, cirq, mods, case):
         u = c.unitary(qubit_order=[qs[w] for w in order], qubits_that_should_be_present=qs)
         out.append(('Circuit.unitary', order, None, np.asarray(u), 'unitary', TOL128))
     if case.all_entries == 'grid':
+        return out
+    if case.all_entries == 'steps':
+        out = out[:2]
+        for Sim in (cirq.Simulator, cirq.DensityMatrixSimulator):
+            for split in (True, False):
+                out += moment_step_rows(ctx, cirq, case, c, qs, Sim, split, k0, basis_vec(dim, k0), f'{Sim.__name__}.simulate_moment_steps[split={split}]')
         return out
     v = cirq.final_state_vector(c, initial_state=k0, qubit_order=qs, dtype=np.complex128)
     out.append(('cirq.final_state_vector', ident, basis_vec(dim, k0), np.asarray(v), 'vec', TOL128))
@@ -366,6 +418,32 @@ def entry_points(ctx, cirq, mods, case):
             for d, x in zip(od, res.records['m'][0][0]):
                 kout = kout * d + int(x)
             out.append((f'classical.run[basis {k}]' if len(all_digits) > 1 else 'classical.run', order, basis_vec(dim, k), kout, 'basis', TOL128))
+        # simulate from an initial state given in every form, TWICE from the same object: the caller's object is not consumed
+        digits = all_digits[rng.randrange(len(all_digits))]
+        k = 0
+        for d, x in zip(od, digits):
+            k = k * d + x
+        for form, ini in (('list', list(digits)), ('tuple', tuple(digits)), ('ndarray', np.array(digits)), ('int', k)):
+            keep = ini.copy() if isinstance(ini, (list, np.ndarray)) else ini
+            for attempt in (1, 2):
+                try:
+                    r = sim.simulate(c, qubit_order=ordered(order), initial_state=ini)
+                    fs = r._final_simulator_state
+                    basis = [int(x) for x in (fs.basis if hasattr(fs, 'basis') else fs._state.basis)]
+                except ValueError as e:
+                    if 'is not one of' in str(e) or 'Can not apply' in str(e) or 'not supported' in str(e).lower():
+                        break
+                    raise
+                kout = 0
+                for d, x in zip(od, basis):
+                    kout = kout * d + x
+                out.append((f'classical.simulate[initial state as {form}, call {attempt} with the same object]', order, basis_vec(dim, k), kout, 'basis', TOL128))
+                same = (ini == keep).all() if isinstance(ini, np.ndarray) else ini == keep
+                if not same:
+                    ctx.violation(f'classical.simulate:modifies-initial-state:{form}',
+                                  f'ClassicalStateSimulator.simulate changed the caller\'s initial_state {form} from {keep} to {ini} on {case.key()}',
+                                  dict(kind='case', case=case.key(), form=form))
+                    break
         return out
 
     # 1. unitary (small systems)
@@ -400,14 +478,26 @@ def entry_points(ctx, cirq, mods, case):
     else:
         ini_arg = ini if kind == 'int' else ini.astype(dtype)
     if rng.random() < 0.5:
+        keep = ini_arg.copy() if isinstance(ini_arg, np.ndarray) else ini_arg
         r = sim.simulate(cc, qubit_order=ordered(order), initial_state=ini_arg)
         out.append((f'Simulator.simulate[{np.dtype(dtype).name},split={split},{kind}]', order, full, np.asarray(r.final_state_vector), 'vec', tol))
+        if isinstance(ini_arg, np.ndarray):
+            if not np.array_equal(ini_arg, keep):
+                ctx.violation('Simulator.simulate:modifies-initial-state', f'Simulator.simulate changed the caller\'s initial_state array on {case.key()}', dict(kind='case', case=case.key()))
+            else:
+                r2 = sim.simulate(cc, qubit_order=ordered(order), initial_state=ini_arg)
+                out.append((f'Simulator.simulate[{np.dtype(dtype).name},split={split},{kind}, second call with the same initial-state object]', order, full,
+                            np.asarray(r2.final_state_vector), 'vec', tol))
     else:
         last = None
         for step in sim.simulate_moment_steps(cc, qubit_order=ordered(order), initial_state=ini_arg):
             last = step
         out.append((f'Simulator.simulate_moment_steps[{np.dtype(dtype).name},split={split},{kind}]', order, full,
                     np.asarray(last.state_vector()), 'vec', tol))
+        if dim <= 16:
+            k1 = rng.randrange(dim)
+            Sim2 = rng.choice([cirq.Simulator, cirq.DensityMatrixSimulator])
+            out += moment_step_rows(ctx, cirq, case, c, qs, Sim2, rng.random() < 0.7, k1, basis_vec(dim, k1), f'{Sim2.__name__}.simulate_moment_steps', max_steps=5)
     # 4. simulate_sweep with a symbolic suffix (prefix reuse)
     import sympy
     sym_idx = [i for i, o in enumerate(case.ops) if o.g.fam in gates.EIG and i >= len(case.ops) // 2]
@@ -521,7 +611,7 @@ def evaluate(ctx, cirq, mods, cases):
                     expr = (f'fcl_close {T} (map (fun z => (PrimFloat.add (PrimFloat.mul (fst z) (fst z)) (PrimFloat.mul (snd z) (snd z)), 0)) '
                             f'(circ_state FOps sh_{d} ops_{d} {gates.fvec(init)})) {gates.fvec(basis_vec(dim, result))}')
                 checks.append(expr)
-                rows_meta.append((len(shards), len(checks) - 1, gi, name, order, init, result, kind, tol))
+                rows_meta.append((len(shards), len(checks) - 1, gi, name, order, init, result, kind, tol, ecase))
                 ctx.count(name.split('[')[0], [case.key(), name, order], case.nontrivial(),
                           sample=dict(dims=case.dims, ops=[[o.g.fam, o.g.p if o.g.fam != 'Matrix' else '<matrix>', o.wires] for o in case.ops],
                                       entry=name, qubit_order=order))
@@ -543,9 +633,9 @@ def evaluate(ctx, cirq, mods, cases):
     outs = coq.coq_eval_many(shards, workers=12)
     for si, out in enumerate(outs):
         bad = coq.parse_nat_list(coq.parse_evals(out)[0])
-        for (s, idx, gi, name, order, init, result, kind, tol) in rows_meta:
+        for (s, idx, gi, name, order, init, result, kind, tol, *ec) in rows_meta:
             if s == si and idx in bad:
-                case = cases[gi]
+                case = ec[0] if ec else cases[gi]
                 ctx.mark_broken(f'correspondence:{name}', f'{name} differs from the reference on case {case.key()}')
                 # The reference IS the property's statement (ordered product of the operation matrices), so this is a failing input.
                 sig = f'{name.split("[")[0]}:' + '+'.join(sorted({o.g.fam for o in case.ops}))
